@@ -93,7 +93,7 @@ Proof.
   set (s' := step_state s o) in *. set (evs := snd (fst (step s o))) in *. clearbody s' evs.
   pose proof (inv_pool_nodup _ I) as NDp.
   destruct o as [sender dest amount fee token|sender dest amount fee token|id who|id who add token which|token which feercv basefee minfee auth
-                |token nonce h|h|sender refund coins to data memo|sender refund value tokens to data memo|nonce ok h|e| |p]; simpl in SU, A.
+                |token nonce h|h|sender refund coins to data memo|sender refund value tokens to data memo|nonce ok h|e| |p|]; simpl in SU, A.
   - (* Send *)
     pose proof (send_pending _ _ _ _ _ _ _ _ SU) as Ep.
     destruct (send_spec _ _ _ _ _ _ _ _ SU) as (_ & _ & _ & Eb & Ec & _ & _ & _ & Eo & -> & _).
@@ -211,6 +211,8 @@ Proof.
     inv SU. constructor; simpl; auto.
   - (* SetParams *)
     des SU. inv SU. constructor; simpl; auto.
+  - (* Migrate *)
+    des SU. inv SU. constructor; simpl; auto.
 Qed.
 
 Lemma J_init : forall p ts l h0, J g0 (init p ts l h0).
@@ -297,7 +299,7 @@ Proof.
   destruct (step_state_cases s o) as [(evs & SU)|E]; [|rewrite E; constructor; auto].
   set (s' := step_state s o) in *. clearbody s'. pose proof (inv_pool_nodup _ I) as NDp.
   destruct o as [sender dest amount fee token|sender dest amount fee token|id who|id who add token which|token which feercv basefee minfee auth
-                |token nonce h|h|sender refund coins to data memo|sender refund value tokens to data memo|nonce ok h|e| |p]; simpl in SU, A, G.
+                |token nonce h|h|sender refund coins to data memo|sender refund value tokens to data memo|nonce ok h|e| |p|]; simpl in SU, A, G.
   - pose proof (send_pending _ _ _ _ _ _ _ _ SU) as Ep.
     destruct (send_spec _ _ _ _ _ _ _ _ SU) as (_ & _ & _ & _ & Ec & _).
     constructor; rewrite ?Ep, ?Ec; auto.
@@ -378,6 +380,7 @@ Proof.
       pose proof (U _ GN _ _ Hin Hp E') as E2. inv E2. auto.
     + rewrite Ep. apply nodup_map_filter; auto.
   - inv SU. constructor; simpl; auto.
+  - des SU. inv SU. constructor; simpl; auto.
   - des SU. inv SU. constructor; simpl; auto.
 Qed.
 
